@@ -224,5 +224,49 @@ std::string count(const Args& a) {
 		return std::to_string(refs.size()) + " " + std::to_string(nb);
 	}, 60);
 }
-Reg r1("c15.run", run), r2("c15.count", count);
+// c15.tree <source> [<seed> <ncorr>] : the block graph as GetChildIndices reports it (after optional reference corruption) and
+// the order in which NifFile::GetTree visits it; answers "root=<id> adj=<i,j,..;…> tree=<ids>"
+std::string tree(const Args& a) {
+	if (probeSynth(a[1]) != "ok")
+		return "unloadable-synth";
+	return forked([&]() -> std::string {
+		std::string bytes;
+		std::vector<RefField> refs;
+		uint32_t nb = 0, rootId = NIF_NPOS;
+		std::vector<std::string> types;
+		if (!buildBytes(a[1], bytes, refs, nb, rootId, types))
+			return std::string("unusable-source");
+		if (a.size() > 3 && !refs.empty()) {
+			Rng rng(std::stoull(a[2]));
+			for (int k = 0; k < std::stoi(a[3]); ++k) {
+				RefField& r = refs[rng.below(static_cast<uint32_t>(refs.size()))];
+				uint32_t v = rng.below(3) == 0 ? (r.block != NIF_NPOS ? r.block : 0) : rng.below(nb + 2);
+				memcpy(&bytes[r.offset], &v, 4);
+			}
+		}
+		std::stringstream in(bytes, std::ios::in | std::ios::binary);
+		NifFile nif;
+		if (nif.Load(in) != 0)
+			return std::string("load-failed");
+		NiHeader& hdr = nif.GetHeader();
+		std::string adj;
+		for (uint32_t i = 0; i < hdr.GetNumBlocks(); ++i) {
+			std::vector<uint32_t> idx;
+			if (auto b = hdr.GetBlock<NiObject>(i))
+				b->GetChildIndices(idx);
+			std::string row;
+			for (auto x : idx)
+				row += (row.empty() ? "" : ",") + std::to_string(x == NIF_NPOS ? -1 : static_cast<long long>(x));
+			adj += (i ? ";" : "") + (row.empty() ? std::string("-") : row);
+		}
+		std::vector<NiObject*> t;
+		nif.GetTree(t);
+		std::string order;
+		for (auto o : t)
+			order += (order.empty() ? "" : ",") + std::to_string(nif.GetBlockID(o));
+		uint32_t root = nif.GetBlockID(nif.GetRootNode());
+		return "root=" + std::to_string(root == NIF_NPOS ? -1 : static_cast<long long>(root)) + " n=" + std::to_string(hdr.GetNumBlocks()) + " adj=" + adj + " tree=" + (order.empty() ? "-" : order);
+	}, 60);
+}
+Reg r1("c15.run", run), r2("c15.count", count), r3("c15.tree", tree);
 } // namespace
